@@ -101,9 +101,23 @@ def cases(tier, inst):
                     continue
                 for k in ("ivalue", "iin", "inot_in", "ivalue_setof"):
                     yield (("intc", pk) + combo, k, True)
+    # the parent variable is bound BEFORE the concatenation is evaluated (a condition on it written first, or the parent
+    # selected before the concatenation): the statement does not say whether the value is then the combined list of all
+    # parents, of the parents that satisfy the condition, or of the bound parent alone - but it is one of these, the same
+    # reading in every row
+    for n in (2, 3):
+        for combo in itertools.product(INT_INNER[:7], repeat=n):
+            if n == 3 and (tier == "quick" and hash(combo) % 3):
+                continue
+            for k in BKINDS:
+                yield (("int",) + combo, k, True)
     yield from object_cases(tier, inst)
 
 
+XC = ("cmp", "ne", A(X, "p"), L(2))
+BKINDS = {"bsel": ("setof", (X, CC), (XC,)), "bsel_nocond": ("setof", (X, CC), ()),
+          "bin": ("setof", (X, M), (XC, ("in", A(M, "p"), CC))),
+          "bnotin": ("setof", (X, M), (XC, ("not", ("in", A(M, "p"), CC))))}
 PARENT_KINDS = {
     "pform": ("bound", "x", ("pform", "Item", "P", (), (("q", L(1)),))),
     "subq": ("sub", ("Q", "an", "entity", X, (("cmp", "eq", A(X, "q"), L(1)),), ())),
@@ -164,6 +178,9 @@ def query_of(case):
         if k == "ivalue_setof":
             return ("Q", "an", "setof", (cc,), (), vx)
         return ("Q", "an", "entity", M, (cond,), (VM,) + vx)
+    if k in BKINDS:
+        kind, sel, conds = BKINDS[k]
+        return ("Q", "an", kind, sel, conds, (VX, VM) if k in ("bin", "bnotin") else (VX,))
     if k == "ivalue":
         return ("Q", "an", "entity", CC, (), (VX,))
     if k == "ivalue_setof":
@@ -179,8 +196,59 @@ def query_of(case):
     return ("Q", "an", "entity", M, (KINDS[k],), (VM, VX))
 
 
+def run_bound(case, inst):
+    combo, k, caching = case
+    q = query_of(case)
+
+    def body():
+        world = build_world(wspec_of(combo), inst)
+        as_list = lambda p: list(p.items) if isinstance(p.items, tuple) else [p.items]      # noqa: E731
+        parents = [p for p in world["P"] if k == "bsel_nocond" or p.p != inst.v(2)]
+        readings = {"all-parents": lambda p: [e for o in world["P"] for e in as_list(o)],
+                    "qualifying-parents": lambda p: [e for o in parents for e in as_list(o)],
+                    "bound-parent": as_list}
+        exps = {}
+        for name, value_for in readings.items():
+            if k.startswith("bsel"):
+                exps[name] = sorted((world["P"].index(p), repr(value_for(p))) for p in parents)
+            else:
+                exps[name] = sorted((world["P"].index(p), world["E"].index(m)) for p in parents for m in world["E"]
+                                    if (m.p in value_for(p)) != (k == "bnotin"))
+        try:
+            obj, b = Q.build(q, world, inst)
+            sx, s2 = b.sel[q]
+            outs = []
+            for _ in range(2):
+                rows = list(obj.evaluate())
+                if k.startswith("bsel"):
+                    outs.append(sorted((world["P"].index(r[sx]), repr(list(r[s2]))) for r in rows))
+                else:
+                    outs.append(sorted((world["P"].index(r[sx]), world["E"].index(r[s2])) for r in rows))
+        except Exception as e:
+            return exc_obs(e), exps
+        return outs, exps
+
+    outs, exps = run_isolated(body, caching=caching)
+    distinct = len({repr(v) for v in exps.values()})
+    res = {"ok": True, "transitions": 2, "nontrivial": distinct > 1,
+           "tags": [f"kind={k}", f"parents={len(combo) - 1}", "caching=on", f"readings_distinguished={distinct}"],
+           "outcome": f"{k}:{distinct}"}
+    if is_exc(outs):
+        res.update(ok=False, sig=f"{k}:exc:{outs[1]}", obs=outs, exp=exps)
+        return res
+    which = [[name for name, e in exps.items() if e == got] for got in outs]
+    if not which[0] or not which[1]:
+        res.update(ok=False, sig=f"{k}:no-reading-of-the-statement-gives-this/eval{1 if not which[0] else 2}",
+                   obs=outs[0 if not which[0] else 1], exp=exps)
+    elif not set(which[0]) & set(which[1]):
+        res.update(ok=False, sig=f"{k}:the-reading-changes-between-evaluations", obs=outs, exp=exps)
+    return res
+
+
 def run_case(case, inst):
     combo, k, caching = case
+    if k in BKINDS:
+        return run_bound(case, inst)
     q = query_of(case)
 
     def body():
